@@ -254,6 +254,7 @@ func RunDiff(workDir string, cases []*DiffCase) ([]Mismatch, int, error) {
 	common.Must(os.MkdirAll(workDir, 0o755))
 	var b strings.Builder
 	b.WriteString(diffPrelude)
+	b.WriteString(FmtCatalogue())
 	b.WriteString("\nvar fns = map[int][2]func(in) interface{}{\n")
 	type spec struct {
 		ID     int     `json:"id"`
